@@ -11,6 +11,9 @@ Tie:      API level vs numpy.ma (mask exactly, data where unmasked, fill_value w
           possibly twice, arithmetic, rechunk) mirrored step by step in numpy.ma; an alias taken before an in-place
           step keeps its meaning; result / filled() / mask / sum / count compared, computed jointly and alone; the
           NumPy source array must be unchanged (data, mask, fill_value) after computing.
+          Extension (harness/props/_c33x.py, Props/C33xRed.lean): sections mapartials (every chunk-level partial, combine task
+          and aggregate of the REAL graph of a masked reduction vs the pair model, `nomask` status of the blocks included) and
+          maarr (getmaskarray / getdata / filled per block, `nomask` expanded).
 """
 from __future__ import annotations
 
@@ -22,11 +25,12 @@ import numpy as np
 from sexp import Sym
 from props import _reduce_util as U
 from props.c22 import check_plan, norm_axes, dec_split, eff_split
+from props import _c33x as X
 
 PROP = "C33"
 READY = True
 DRIVER = "dm_reduce"
-LEAN_MODULES = ["DaskModel.Props.C33"]
+LEAN_MODULES = ["DaskModel.Props.C33", "DaskModel.Props.C33xRed"]
 CASE_TIMEOUT_S = 20
 LEVEL_TEXT = (
     "Proved in Lean 4 at the element type Masked = Option Int (none = masked), for every blocking, split_every and valid depth: "
@@ -41,7 +45,20 @@ LEVEL_TEXT = (
     "(sequential cumsum/cumprod on masked blocks = np.ma.cumsum). VALIDATED against numpy.ma only: fill_value propagation, dtype "
     "promotion, var/std/any/all on masked data, NaN/inf semantics of masked_invalid / fix_invalid, the tolerances of "
     "masked_values, average / set_fill_value, Blelloch scans on masked data, n-d value equality of reductions, sequences of "
-    "in-place steps (section seq)."
+    "in-place steps (section seq). EXTENSION (Props/C33xRed, element = the (data, mask) pair numpy.ma stores, a block carries "
+    "`mask is nomask`, chunk/combine/aggregate = numpy.ma's (filled(e).op(), _check_mask_axis(mask)); any monoid (op, e): sum, prod, "
+    "any, all): ma_tree_eq (one partial: payload = fold of the unmasked values — ma_contributes_iff_unmasked —, masked iff every "
+    "block partial is), ma_all_masked_block_unit / ma_unit_partial_neutral, ma_red_eq_numpy_ma with instances ma_sum_eq_numpy_ma / "
+    "ma_prod_eq_numpy_ma / ma_any_eq_numpy_ma / ma_all_eq_numpy_ma (blocks of from_array, nomask arrays and zero-length chunks "
+    "included: payload AND mask of numpy.ma's reduction of the whole array), ma_sum_spec, ma_all_masked_result_masked (masked iff the "
+    "array has a mask and every element is masked), maChunk_toOpt_eq_mfold (the Option model is this one with the payload "
+    "forgotten), ma_min_max_eq (= List.min?/max? of the unmasked values), ma_mean_eq_numpy_ma ((total, n): n = #unmasked, both "
+    "masked iff everything is), ma_var_eq / ma_var_all_masked (moment tree over the unmasked values = C22.var_eq_numpy), "
+    "getmaskarray_nomask_den (nomask expanded per block), getdata_den, filled_arr_den. REFUTED (finding, not repaired): for blocks "
+    "that went through a per-block numpy.ma masking function (masked_where/greater/…: masks shrunk to nomask block by block) "
+    "ma_red_shrunk_empty_block_refuted — a zero-length block becomes nomask, its partial is the unmasked unit, and sum/prod/any/all/"
+    "mean/var of a completely masked array return 0/1/False/True/nan where numpy.ma returns masked; "
+    "ma_red_shrunk_eq_numpy_partial is the theorem on the complement (no zero-length block or not everything masked)."
 )
 LEVEL_NOTE = ("Trusted: Lean kernel + standard axioms; numpy.ma on one block and numpy.ma as the reference; payload under "
               "the mask is unspecified in numpy.ma and is never compared.")
@@ -488,6 +505,7 @@ def case_seq(ctx, inp):
 
 
 CASES = {"seq": case_seq, "joint": case_joint, "construct": case_construct, "elemwise": case_elemwise, "reduce": case_reduce, "fn": case_fn, "cum": case_cum}
+CASES.update(X.CASES)
 CASES = {k: U.pure_sources(v) for k, v in CASES.items()}
 
 
@@ -647,3 +665,4 @@ def generate(ctx):
         chunks = U.rand_chunks(rng, shape, zero_p=0.1)
         yield "cum", {"a": gen_ma(rng, shape, chunks), "chunks": [list(c) for c in chunks], "op": rng.choice(["cumsum", "cumprod"]),
                       "axis": rng.randrange(len(shape)), "method": rng.choice(["sequential", "sequential", "blelloch"])}
+    yield from X.generate(ctx)          # extension round: generated last, the streams of the older sections are unchanged
